@@ -1,6 +1,336 @@
-//! Operations that instantiate the generic code with non-f64 scalar types (to be extended).
+//! The generic sampling code instantiated with user scalar types:
+//!  * `Tr`  – f64 value + set of x-space coordinates it was computed from; every comparison and every
+//!            narrowing (`to_f64`) is logged (properties C14, C19);
+//!  * `Dd`  – double-double arithmetic for + - * / sqrt (≈106 bits), transcendental functions through f64
+//!            (property C19: precision is preserved outside the Gamma draw).
+use crate::{b2f, f2b, table_from_bits, CaptureLogger};
+use momtrop::float::MomTropFloat;
+use momtrop::vector::Vector;
+use momtrop::verif_hooks::{samp, SamplingError};
+use momtrop::{SampleGenerator, TropicalSamplingSettings};
 use serde_json::{json, Value};
+use std::cell::RefCell;
+use std::cmp::Ordering;
+use std::ops::{Add, AddAssign, Div, Mul, MulAssign, Neg, Sub, SubAssign};
 
-pub fn handle_ext(op: &str, _j: &Value) -> Value {
-    json!({"error": format!("unknown op {op}")})
+/// implement every operator combination `MomTropFloat` asks for, from four by-reference methods
+macro_rules! impl_ops {
+    ($T:ty) => {
+        impl<'a, 'b> Add<&'b $T> for &'a $T { type Output = $T; fn add(self, r: &$T) -> $T { <$T>::op_add(self, r) } }
+        impl<'a, 'b> Sub<&'b $T> for &'a $T { type Output = $T; fn sub(self, r: &$T) -> $T { <$T>::op_sub(self, r) } }
+        impl<'a, 'b> Mul<&'b $T> for &'a $T { type Output = $T; fn mul(self, r: &$T) -> $T { <$T>::op_mul(self, r) } }
+        impl<'a, 'b> Div<&'b $T> for &'a $T { type Output = $T; fn div(self, r: &$T) -> $T { <$T>::op_div(self, r) } }
+        impl<'a> Add<$T> for &'a $T { type Output = $T; fn add(self, r: $T) -> $T { <$T>::op_add(self, &r) } }
+        impl<'a> Sub<$T> for &'a $T { type Output = $T; fn sub(self, r: $T) -> $T { <$T>::op_sub(self, &r) } }
+        impl<'a> Mul<$T> for &'a $T { type Output = $T; fn mul(self, r: $T) -> $T { <$T>::op_mul(self, &r) } }
+        impl<'a> Div<$T> for &'a $T { type Output = $T; fn div(self, r: $T) -> $T { <$T>::op_div(self, &r) } }
+        impl Add<$T> for $T { type Output = $T; fn add(self, r: $T) -> $T { <$T>::op_add(&self, &r) } }
+        impl Sub<$T> for $T { type Output = $T; fn sub(self, r: $T) -> $T { <$T>::op_sub(&self, &r) } }
+        impl Mul<$T> for $T { type Output = $T; fn mul(self, r: $T) -> $T { <$T>::op_mul(&self, &r) } }
+        impl Div<$T> for $T { type Output = $T; fn div(self, r: $T) -> $T { <$T>::op_div(&self, &r) } }
+        impl<'a> Add<&'a $T> for $T { type Output = $T; fn add(self, r: &$T) -> $T { <$T>::op_add(&self, r) } }
+        impl<'a> Sub<&'a $T> for $T { type Output = $T; fn sub(self, r: &$T) -> $T { <$T>::op_sub(&self, r) } }
+        impl<'a> Mul<&'a $T> for $T { type Output = $T; fn mul(self, r: &$T) -> $T { <$T>::op_mul(&self, r) } }
+        impl<'a> Div<&'a $T> for $T { type Output = $T; fn div(self, r: &$T) -> $T { <$T>::op_div(&self, r) } }
+        impl<'a> AddAssign<&'a $T> for $T { fn add_assign(&mut self, r: &$T) { *self = <$T>::op_add(self, r) } }
+        impl<'a> SubAssign<&'a $T> for $T { fn sub_assign(&mut self, r: &$T) { *self = <$T>::op_sub(self, r) } }
+        impl<'a> MulAssign<&'a $T> for $T { fn mul_assign(&mut self, r: &$T) { *self = <$T>::op_mul(self, r) } }
+        impl Neg for $T { type Output = $T; fn neg(self) -> $T { <$T>::op_neg(&self) } }
+        impl<'a> Neg for &'a $T { type Output = $T; fn neg(self) -> $T { <$T>::op_neg(self) } }
+    };
+}
+
+// ------------------------------------------------------------------------------------------------
+// dependency-tracking scalar
+// ------------------------------------------------------------------------------------------------
+thread_local! {
+    static COMPARISONS: RefCell<Vec<u128>> = RefCell::new(vec![]);
+    static NARROWINGS: RefCell<Vec<(u128, u64)>> = RefCell::new(vec![]);
+    static WIDENINGS: RefCell<u64> = RefCell::new(0);
+}
+
+#[derive(Clone, Debug)]
+pub struct Tr {
+    pub v: f64,
+    pub deps: u128,
+}
+impl Tr {
+    fn op_add(a: &Tr, b: &Tr) -> Tr { Tr { v: a.v + b.v, deps: a.deps | b.deps } }
+    fn op_sub(a: &Tr, b: &Tr) -> Tr { Tr { v: a.v - b.v, deps: a.deps | b.deps } }
+    fn op_mul(a: &Tr, b: &Tr) -> Tr { Tr { v: a.v * b.v, deps: a.deps | b.deps } }
+    fn op_div(a: &Tr, b: &Tr) -> Tr { Tr { v: a.v / b.v, deps: a.deps | b.deps } }
+    fn op_neg(a: &Tr) -> Tr { Tr { v: -a.v, deps: a.deps } }
+    fn un(&self, v: f64) -> Tr { Tr { v, deps: self.deps } }
+}
+impl_ops!(Tr);
+impl PartialEq for Tr {
+    fn eq(&self, o: &Tr) -> bool {
+        COMPARISONS.with(|c| c.borrow_mut().push(self.deps | o.deps));
+        self.v == o.v
+    }
+}
+impl PartialOrd for Tr {
+    fn partial_cmp(&self, o: &Tr) -> Option<Ordering> {
+        COMPARISONS.with(|c| c.borrow_mut().push(self.deps | o.deps));
+        self.v.partial_cmp(&o.v)
+    }
+}
+impl MomTropFloat for Tr {
+    fn one(&self) -> Self { Tr { v: 1.0, deps: 0 } }
+    fn zero(&self) -> Self { Tr { v: 0.0, deps: 0 } }
+    fn PI(&self) -> Self { Tr { v: std::f64::consts::PI, deps: 0 } }
+    fn ln(&self) -> Self { self.un(self.v.ln()) }
+    fn exp(&self) -> Self { self.un(self.v.exp()) }
+    fn cos(&self) -> Self { self.un(self.v.cos()) }
+    fn sin(&self) -> Self { self.un(self.v.sin()) }
+    fn sqrt(&self) -> Self { self.un(self.v.sqrt()) }
+    fn abs(&self) -> Self { self.un(self.v.abs()) }
+    fn inv(&self) -> Self { self.un(1.0 / self.v) }
+    fn powf(&self, p: &Self) -> Self { Tr { v: self.v.powf(p.v), deps: self.deps | p.deps } }
+    fn from_isize(&self, value: isize) -> Self { Tr { v: value as f64, deps: 0 } }
+    fn from_f64(&self, value: f64) -> Self {
+        WIDENINGS.with(|w| *w.borrow_mut() += 1);
+        Tr { v: value, deps: 0 }
+    }
+    fn to_f64(&self) -> f64 {
+        NARROWINGS.with(|n| n.borrow_mut().push((self.deps, f2b(self.v))));
+        self.v
+    }
+}
+
+fn bits_of(d: u128) -> Vec<usize> {
+    (0..128).filter(|i| d >> i & 1 == 1).collect()
+}
+
+macro_rules! with_d6 {
+    ($d:expr, $D:ident, $body:block) => {
+        match $d {
+            1 => { const $D: usize = 1; $body }
+            2 => { const $D: usize = 2; $body }
+            3 => { const $D: usize = 3; $body }
+            4 => { const $D: usize = 4; $body }
+            5 => { const $D: usize = 5; $body }
+            6 => { const $D: usize = 6; $body }
+            _ => panic!("harness: unsupported dimension"),
+        }
+    };
+}
+
+fn get_sig(j: &Value) -> Vec<Vec<isize>> {
+    j["sig"].as_array().unwrap().iter()
+        .map(|r| r.as_array().unwrap().iter().map(|v| v.as_i64().unwrap() as isize).collect()).collect()
+}
+fn get_x(j: &Value) -> Vec<f64> {
+    j["x"].as_array().unwrap().iter().map(|v| b2f(v.as_u64().unwrap())).collect()
+}
+fn settings(j: &Value) -> TropicalSamplingSettings {
+    TropicalSamplingSettings {
+        matrix_stability_test: j.get("tol").and_then(|v| v.as_u64()).map(b2f),
+        print_debug_info: j.get("debug").and_then(|v| v.as_bool()).unwrap_or(false),
+        return_metadata: j.get("meta").and_then(|v| v.as_bool()).unwrap_or(true),
+    }
+}
+
+/// `sample` with the tracking scalar: values, data dependencies of every output, comparison log, narrowing log
+fn op_sample_track(j: &Value) -> Value {
+    let d = j["D"].as_u64().unwrap() as usize;
+    let table = table_from_bits(&j["table"]);
+    let xs: Vec<Tr> = get_x(j).iter().enumerate().map(|(i, &v)| Tr { v, deps: 1u128 << i }).collect();
+    let st = settings(j);
+    COMPARISONS.with(|c| c.borrow_mut().clear());
+    NARROWINGS.with(|c| c.borrow_mut().clear());
+    WIDENINGS.with(|c| *c.borrow_mut() = 0);
+    with_d6!(d, D, {
+        let edge_data: Vec<(Option<Tr>, Vector<Tr, D>)> = j["edge_data"].as_array().unwrap().iter().map(|e| {
+            let mass = e[0].as_u64().map(|b| Tr { v: b2f(b), deps: 0 });
+            let sh: Vec<Tr> = e[1].as_array().unwrap().iter().map(|v| Tr { v: b2f(v.as_u64().unwrap()), deps: 0 }).collect();
+            (mass, Vector::from_vec(sh))
+        }).collect();
+        // Feynman parameters through the hook (same table, same point)
+        let logger = CaptureLogger::new();
+        let quiet = TropicalSamplingSettings { matrix_stability_test: None, print_debug_info: false, return_metadata: false };
+        let (xf, _, _) = samp::permatuhedral(&table, &xs, &quiet, &logger);
+        let perm_cmp: Vec<Vec<usize>> = COMPARISONS.with(|c| c.borrow().iter().map(|&d| bits_of(d)).collect());
+        let perm_narrow = NARROWINGS.with(|c| c.borrow().len());
+        COMPARISONS.with(|c| c.borrow_mut().clear());
+        NARROWINGS.with(|c| c.borrow_mut().clear());
+        WIDENINGS.with(|c| *c.borrow_mut() = 0);
+        let gen = SampleGenerator::<D>::verif_from_parts(get_sig(j), table);
+        let r = gen.generate_sample_from_x_space_point(&xs, edge_data, &st, &logger);
+        let cmp: Vec<Vec<usize>> = COMPARISONS.with(|c| c.borrow().iter().map(|&d| bits_of(d)).collect());
+        let narrow: Vec<Value> = NARROWINGS.with(|c| c.borrow().iter().map(|&(d, b)| json!({"deps": bits_of(d), "value": b})).collect());
+        let widen = WIDENINGS.with(|c| *c.borrow());
+        let mut out = json!({
+            "dimension": gen.get_dimension(),
+            "x_deps": xf.iter().map(|t| bits_of(t.deps)).collect::<Vec<_>>(),
+            "x": xf.iter().map(|t| f2b(t.v)).collect::<Vec<_>>(),
+            "perm_comparisons": perm_cmp, "perm_narrowings": perm_narrow,
+            "comparisons": cmp, "narrowings": narrow, "widenings": widen,
+        });
+        match r {
+            Err(SamplingError::MatrixError(_)) => { out["status"] = json!("matrixerr"); }
+            Err(SamplingError::GammaError(_)) => { out["status"] = json!("gammaerr"); }
+            Ok(s) => {
+                out["status"] = json!("ok");
+                let vd = |vs: &Vec<Vector<Tr, D>>| -> (Value, Value) {
+                    (json!(vs.iter().map(|v| v.get_elements().iter().map(|t| f2b(t.v)).collect::<Vec<_>>()).collect::<Vec<_>>()),
+                     json!(vs.iter().map(|v| v.get_elements().iter().map(|t| bits_of(t.deps)).collect::<Vec<_>>()).collect::<Vec<_>>()))
+                };
+                let (k, kd) = vd(&s.loop_momenta);
+                out["k"] = k; out["k_deps"] = kd;
+                out["u"] = json!(f2b(s.u.v)); out["u_deps"] = json!(bits_of(s.u.deps));
+                out["v"] = json!(f2b(s.v.v)); out["v_deps"] = json!(bits_of(s.v.deps));
+                out["jac"] = json!(f2b(s.jacobian.v)); out["jac_deps"] = json!(bits_of(s.jacobian.deps));
+                if let Some(m) = s.metadata {
+                    let (q, qd) = vd(&m.q_vectors);
+                    out["q"] = q; out["q_deps"] = qd;
+                    out["lambda"] = json!(f2b(m.lambda.v)); out["lambda_deps"] = json!(bits_of(m.lambda.deps));
+                }
+            }
+        }
+        out
+    })
+}
+
+// ------------------------------------------------------------------------------------------------
+// double-double scalar
+// ------------------------------------------------------------------------------------------------
+#[derive(Clone, Copy, Debug)]
+pub struct Dd {
+    pub hi: f64,
+    pub lo: f64,
+}
+fn two_sum(a: f64, b: f64) -> (f64, f64) {
+    let s = a + b;
+    let bb = s - a;
+    (s, (a - (s - bb)) + (b - bb))
+}
+fn quick_two_sum(a: f64, b: f64) -> (f64, f64) {
+    let s = a + b;
+    (s, b - (s - a))
+}
+fn two_prod(a: f64, b: f64) -> (f64, f64) {
+    let p = a * b;
+    (p, a.mul_add(b, -p))
+}
+impl Dd {
+    pub fn new(x: f64) -> Dd { Dd { hi: x, lo: 0.0 } }
+    fn norm(hi: f64, lo: f64) -> Dd {
+        if !hi.is_finite() { return Dd { hi, lo: 0.0 }; }
+        let (h, l) = quick_two_sum(hi, lo);
+        Dd { hi: h, lo: l }
+    }
+    fn op_add(a: &Dd, b: &Dd) -> Dd {
+        let (s, e) = two_sum(a.hi, b.hi);
+        let (t, f) = two_sum(a.lo, b.lo);
+        let (s, e) = quick_two_sum(s, e + t);
+        Dd::norm(s, e + f)
+    }
+    fn op_neg(a: &Dd) -> Dd { Dd { hi: -a.hi, lo: -a.lo } }
+    fn op_sub(a: &Dd, b: &Dd) -> Dd { Dd::op_add(a, &Dd::op_neg(b)) }
+    fn op_mul(a: &Dd, b: &Dd) -> Dd {
+        let (p, e) = two_prod(a.hi, b.hi);
+        Dd::norm(p, e + (a.hi * b.lo + a.lo * b.hi))
+    }
+    fn op_div(a: &Dd, b: &Dd) -> Dd {
+        let q1 = a.hi / b.hi;
+        if !q1.is_finite() { return Dd::new(q1); }
+        let r = Dd::op_sub(a, &Dd::op_mul(b, &Dd::new(q1)));
+        let q2 = r.hi / b.hi;
+        let r2 = Dd::op_sub(&r, &Dd::op_mul(b, &Dd::new(q2)));
+        let q3 = r2.hi / b.hi;
+        let (s, e) = quick_two_sum(q1, q2);
+        Dd::norm(s, e + q3)
+    }
+    fn f(&self, g: impl Fn(f64) -> f64) -> Dd { Dd::new(g(self.hi + self.lo)) }
+}
+impl_ops!(Dd);
+impl PartialEq for Dd { fn eq(&self, o: &Dd) -> bool { self.hi == o.hi && self.lo == o.lo } }
+impl PartialOrd for Dd {
+    fn partial_cmp(&self, o: &Dd) -> Option<Ordering> {
+        match self.hi.partial_cmp(&o.hi) {
+            Some(Ordering::Equal) => self.lo.partial_cmp(&o.lo),
+            x => x,
+        }
+    }
+}
+impl MomTropFloat for Dd {
+    fn one(&self) -> Self { Dd::new(1.0) }
+    fn zero(&self) -> Self { Dd::new(0.0) }
+    fn PI(&self) -> Self { Dd { hi: 3.141592653589793116e+00, lo: 1.224646799147353207e-16 } }
+    fn ln(&self) -> Self { self.f(f64::ln) }
+    fn exp(&self) -> Self { self.f(f64::exp) }
+    fn cos(&self) -> Self { self.f(f64::cos) }
+    fn sin(&self) -> Self { self.f(f64::sin) }
+    fn abs(&self) -> Self { if self.hi < 0.0 { Dd::op_neg(self) } else { *self } }
+    fn inv(&self) -> Self { Dd::op_div(&Dd::new(1.0), self) }
+    fn powf(&self, p: &Self) -> Self { Dd::new((self.hi + self.lo).powf(p.hi + p.lo)) }
+    fn sqrt(&self) -> Self {
+        if self.hi <= 0.0 || !self.hi.is_finite() { return Dd::new(self.hi.sqrt()); }
+        let x = 1.0 / self.hi.sqrt();
+        let ax = self.hi * x;
+        let d = Dd::op_sub(self, &Dd::op_mul(&Dd::new(ax), &Dd::new(ax)));
+        let (s, e) = two_sum(ax, d.hi * (x * 0.5));
+        Dd::norm(s, e)
+    }
+    fn from_isize(&self, value: isize) -> Self { Dd::new(value as f64) }
+    fn from_f64(&self, value: f64) -> Self { Dd::new(value) }
+    fn to_f64(&self) -> f64 { self.hi + self.lo }
+}
+
+fn ddv(d: &Dd) -> Value { json!([f2b(d.hi), f2b(d.lo)]) }
+
+/// `sample` with the double-double scalar; Feynman parameters through the hook
+fn op_sample_dd(j: &Value) -> Value {
+    let d = j["D"].as_u64().unwrap() as usize;
+    let table = table_from_bits(&j["table"]);
+    let xs: Vec<Dd> = get_x(j).iter().map(|&v| Dd::new(v)).collect();
+    let st = settings(j);
+    with_d6!(d, D, {
+        let edge_data: Vec<(Option<Dd>, Vector<Dd, D>)> = j["edge_data"].as_array().unwrap().iter().map(|e| {
+            let mass = e[0].as_u64().map(|b| Dd::new(b2f(b)));
+            let sh: Vec<Dd> = e[1].as_array().unwrap().iter().map(|v| Dd::new(b2f(v.as_u64().unwrap()))).collect();
+            (mass, Vector::from_vec(sh))
+        }).collect();
+        let logger = CaptureLogger::new();
+        let quiet = TropicalSamplingSettings { matrix_stability_test: None, print_debug_info: false, return_metadata: false };
+        let (xf, _, _) = samp::permatuhedral(&table, &xs, &quiet, &logger);
+        let gen = SampleGenerator::<D>::verif_from_parts(get_sig(j), table);
+        let r = gen.generate_sample_from_x_space_point(&xs, edge_data, &st, &logger);
+        let mut out = json!({"x": xf.iter().map(ddv).collect::<Vec<_>>()});
+        match r {
+            Err(SamplingError::MatrixError(_)) => { out["status"] = json!("matrixerr"); }
+            Err(SamplingError::GammaError(_)) => { out["status"] = json!("gammaerr"); }
+            Ok(s) => {
+                out["status"] = json!("ok");
+                let vv = |vs: &Vec<Vector<Dd, D>>| json!(vs.iter().map(|v| v.get_elements().iter().map(ddv).collect::<Vec<_>>()).collect::<Vec<_>>());
+                out["k"] = vv(&s.loop_momenta);
+                out["u"] = ddv(&s.u); out["v"] = ddv(&s.v); out["jac"] = ddv(&s.jacobian);
+                if let Some(m) = s.metadata {
+                    out["q"] = vv(&m.q_vectors); out["lambda"] = ddv(&m.lambda); out["uvec"] = vv(&m.u_vectors);
+                    out["shift"] = vv(&m.shift);
+                    let n = m.l_matrix.get_dim();
+                    let flat = |mm: &momtrop::matrix::SquareMatrix<Dd>| -> Value {
+                        let mut o = vec![];
+                        for i in 0..n { for k in 0..n { o.push(ddv(&mm[(i, k)])); } }
+                        json!(o)
+                    };
+                    out["l"] = flat(&m.l_matrix);
+                    out["inv"] = flat(&m.decompoisiton_result.inverse);
+                    out["qt"] = flat(&m.decompoisiton_result.q_transposed);
+                    out["qti"] = flat(&m.decompoisiton_result.q_transposed_inverse);
+                    out["det"] = ddv(&m.decompoisiton_result.determinant);
+                }
+            }
+        }
+        out
+    })
+}
+
+pub fn handle_ext(op: &str, j: &Value) -> Value {
+    match op {
+        "sample_track" => op_sample_track(j),
+        "sample_dd" => op_sample_dd(j),
+        other => crate::extra::handle_extra(other, j),
+    }
 }
